@@ -301,3 +301,31 @@ Example c07_represent_example :
   end.
 Proof. exact represent_example. Qed.
 Print Assumptions c07_represent_example.
+
+(** ---- The lock is per session (pkg/session/lock.go lockKey over session_manager.go key; Model/SessionKey.v, tied to the
+    code by `wwh sesskey`). ---- *)
+From WW Require Model.SessionKey Proofs.SessionKeyP.
+
+(** Two refreshes contend for the same lock entry exactly when they refresh the same session: the mutual exclusion of the
+    theorems above is per session, and refreshes of different sessions never serialise each other. *)
+Theorem c07_lock_entry_identifies_the_session : forall provider client sid sid',
+  SessionKey.lock_key (SessionKey.store_key provider client sid) = SessionKey.lock_key (SessionKey.store_key provider client sid') -> sid = sid'.
+Proof. exact SessionKeyP.session_lock_inj. Qed.
+Print Assumptions c07_lock_entry_identifies_the_session.
+
+(** A lock entry never sits on a session's own key as long as that session's id does not end in ".lock" (wonderwall's
+    generated ids are base64 and never do) ... *)
+Theorem c07_lock_entry_is_no_session_entry : forall provider client sid sid',
+  Bytes.has_suffix sid SessionKey.lock_suffix = false ->
+  SessionKey.lock_key (SessionKey.store_key provider client sid') <> SessionKey.store_key provider client sid.
+Proof. exact SessionKeyP.lock_key_not_session_key. Qed.
+Print Assumptions c07_lock_entry_is_no_session_entry.
+
+(** ... and for an id that does, it does: the session "x.lock" is stored where the refresh lock of session "x" is taken
+    (while it exists, SET NX for x's lock fails: x is never refreshed; exclusion itself is not weakened). Provider-issued
+    `sid`s of that shape, or a `session_state` chosen by the user at a provider without `sid`, are outside C07's quantifier
+    (schedules of requests on ONE session); recorded in DESIGN.md 0.4 as an observation. *)
+Theorem c07_lock_entry_session_entry_collision_refuted :
+  exists p c e e', e <> e' /\ SessionKey.lock_key (SessionKey.store_key p c e') = SessionKey.store_key p c e.
+Proof. exact SessionKeyP.lock_key_session_key_collision. Qed.
+Print Assumptions c07_lock_entry_session_entry_collision_refuted.
